@@ -34,6 +34,9 @@ pub struct C20Harness {
     pub label: String,
     pub tasks: Vec<Task>,
     pub frames: usize,
+    /// Ethernet frame capacity: 1100 (every cycle is one LRW) or 100 (72 data bytes per LRW: group
+    /// C's image is split over two frames)
+    pub data: usize,
     /// also explore "a frame in flight is held longer than its sender waits" (one Env deviation each)
     pub late: bool,
     pub baseline: OnceLock<Vec<Vec<String>>>,
@@ -42,9 +45,9 @@ pub struct C20Harness {
 
 #[derive(Default)]
 struct Groups {
-    a: SubDeviceGroup<4, 16>,
-    b: SubDeviceGroup<4, 16>,
-    c: SubDeviceGroup<4, 16>,
+    a: SubDeviceGroup<4, 96>,
+    b: SubDeviceGroup<4, 96>,
+    c: SubDeviceGroup<4, 96>,
 }
 
 fn segment() -> Segment {
@@ -66,7 +69,8 @@ fn segment() -> Segment {
     dev2.coe = Some(coe);
     devs.push(dev2);
     devs.push(Device::new(simple_io(0x8003, &[8], &[8]).image()));
-    devs.push(Device::new(simple_io(0x8004, &[8, 8], &[8, 8]).image()));
+    // 40 + 40 bytes: with 100-byte frames (72 data bytes per LRW) group C's cycle needs two frames
+    devs.push(Device::new(simple_io(0x8004, &[8; 40], &[8; 40]).image()));
     devs.push(Device::new(simple_io(0x8005, &[8], &[8]).image()));
     let mut seg = Segment::new(devs);
     for (i, d) in seg.devices.iter_mut().enumerate() {
@@ -78,8 +82,8 @@ fn segment() -> Segment {
     seg
 }
 
-fn bring_up(frames: usize) -> Result<(Net, [Op; 3]), String> {
-    let mut net = Net::with_frames(segment(), timeouts(), RetryBehaviour::None, frames.max(2), 1100);
+fn bring_up(frames: usize, data: usize) -> Result<(Net, [Op; 3]), String> {
+    let mut net = Net::with_frames(segment(), timeouts(), RetryBehaviour::None, frames.max(2), data);
     let md = net.md();
     let r = net.run(async move {
         let g = md
@@ -110,7 +114,7 @@ fn bring_up(frames: usize) -> Result<(Net, [Op; 3]), String> {
     }
 }
 
-type Op = SubDeviceGroup<4, 16, ethercrab::DefaultLock, ethercrab::subdevice_group::Op>;
+type Op = SubDeviceGroup<4, 96, ethercrab::DefaultLock, ethercrab::subdevice_group::Op>;
 
 fn cycle<'a>(g: &'a Op, md: &'static ethercrab::MainDevice<'static>) -> Pin<Box<dyn Future<Output = Vec<String>> + 'a>> {
     Box::pin(async move {
@@ -169,7 +173,7 @@ fn device_effects(net: &Net) -> String {
 
 impl C20Harness {
     pub fn new(label: &str, tasks: Vec<Task>, frames: usize) -> Self {
-        Self { label: label.into(), tasks, frames, late: false, baseline: OnceLock::new(), seq_effects: OnceLock::new() }
+        Self { label: label.into(), tasks, frames, data: 1100, late: false, baseline: OnceLock::new(), seq_effects: OnceLock::new() }
     }
 
     pub fn late(mut self) -> Self {
@@ -177,10 +181,15 @@ impl C20Harness {
         self
     }
 
+    pub fn small_frames(mut self) -> Self {
+        self.data = 100;
+        self
+    }
+
     /// Device effects after the tasks ran one after the other on one fresh network.
     fn sequential_effects(&self) -> &String {
         self.seq_effects.get_or_init(|| {
-            let (mut net, gs) = bring_up(8).expect("baseline bring-up");
+            let (mut net, gs) = bring_up(8, self.data).expect("baseline bring-up");
             let md = net.md();
             for t in &self.tasks {
                 let fut = task_future(*t, md, &gs);
@@ -196,7 +205,7 @@ impl C20Harness {
             self.tasks
                 .iter()
                 .map(|t| {
-                    let (mut net, gs) = bring_up(8).expect("baseline bring-up");
+                    let (mut net, gs) = bring_up(8, self.data).expect("baseline bring-up");
                     let md = net.md();
                     let fut = task_future(*t, md, &gs);
                     match net.run(fut) {
@@ -221,7 +230,7 @@ impl Harness for C20Harness {
     fn run(&self, ctx: &mut Ctx) -> RunResult {
         let base = self.baseline().clone();
         let mut violations = Vec::new();
-        let (mut net, gs) = match bring_up(self.frames) {
+        let (mut net, gs) = match bring_up(self.frames, self.data) {
             Ok(x) => x,
             Err(e) => {
                 return RunResult { violations: vec![Violation { signature: "bring-up-failed".into(), message: e }], outcome: "bring-up failed".into(), nontrivial: false };
@@ -319,7 +328,7 @@ impl Harness for C20Harness {
     }
 
     fn params(&self) -> serde_json::Value {
-        json!({"engine": "c20", "label": self.label, "tasks": format!("{:?}", self.tasks), "frames": self.frames, "late": self.late})
+        json!({"engine": "c20", "label": self.label, "tasks": format!("{:?}", self.tasks), "frames": self.frames, "frame_bytes": self.data, "late": self.late})
     }
 }
 
@@ -335,6 +344,8 @@ pub fn harnesses(thorough: bool) -> Vec<(C20Harness, Vec<Bound>)> {
         (C20Harness::new("c20-cycleA+sdoread+regread-N4", vec![Task::CycleA, Task::SdoRead, Task::RegisterRead], 4), t2.clone()),
         (C20Harness::new("c20-cycleB+sdoread-N2", vec![Task::CycleB, Task::SdoRead], 2), t2.clone()),
         (C20Harness::new("c20-status+cycleC+sdowrite-N4", vec![Task::Status, Task::CycleC, Task::SdoWrite], 4), t2.clone()),
+        // 100-byte frames: group C's image (80 bytes at a non-zero logical address) is split over two LRWs
+        (C20Harness::new("c20-split-cycleB+cycleC+regread-N8", vec![Task::CycleB, Task::CycleC, Task::RegisterRead], 8).small_frames(), t2.clone()),
         // a frame may be held past its sender's deadline: the late response must reach nobody
         (C20Harness::new("c20-late-cycleA+cycleB-N2", vec![Task::CycleA, Task::CycleB], 2).late(), tl.clone()),
         (C20Harness::new("c20-late-cycleC+regread+status-N4", vec![Task::CycleC, Task::RegisterRead, Task::Status], 4).late(), tl.clone()),
@@ -366,7 +377,7 @@ pub fn c20(tier: &Tier) -> Result<i32, String> {
     let known = crate::report::Known::load();
     for (k, (h, bounds)) in hs.into_iter().enumerate() {
         let remaining = (budget - rep.t0.elapsed().as_secs_f64()).max(3.0);
-        let lim = Limits { max_executions: u64::MAX, max_wall: Duration::from_secs_f64(remaining / (nh - k as f64).max(1.0) * 1.5), workers: crate::core::workers() };
+        let lim = Limits { max_executions: u64::MAX, max_wall: Duration::from_secs_f64(if tier.thorough { remaining / (nh - k as f64).max(1.0) * 1.5 } else { 150.0 }), workers: crate::core::workers() };
         let is_known = |s: &str| known.find("C20", s).is_some();
         let st = explore_iterative(&h, &bounds, &lim, tier.seed, &is_known)?;
         println!(
